@@ -18,4 +18,21 @@ SPECS = {
         exhaustive={"quick": True, "thorough": True},
         exhaustive_scope={"quick": "digraphs on 1..3 labelled nodes x request subsets", "thorough": "digraphs on 1..4 labelled nodes (65 536) x 15 request subsets"},
     ),
+    "C05": dict(
+        groups=["types"],
+        theorems="Typegen.Theorems.C05",
+        trusted_base=[LEAN_TB, HARNESS_TB,
+                      "modelled, not verified: syn parses the rendered source into the tree the IR printed; proc-macro2/quote unused here",
+                      "spec: T.denote (README table) and T.printSpec are the definition of 'denotes the JSON shape'; T.parseTsTy (recogniser) is trusted as the reading of TypeScript type syntax and is exercised on every case (parse o print is a run-time test, not yet a theorem)"],
+        assumptions=["strings are List Char; only ASCII space is trimmed (type_to_string emits no other whitespace)",
+                     "zod-mode param/field sites are compared for model=implementation only; their shape is decided under C10"],
+        rule="all type expressions of depth <=2 (quick) / <=3 (thorough) over {String,i32,bool,&str,(),User,Mode} x the README constructors "
+             "(binary constructors over the first 12/40 sub-terms), at all five sites in ts mode and rotating sites in zod mode; all 17 primitive names at depth <=1; "
+             "random types to depth 6 with/without type mappings; string mutations for parse_type_structure; non-trivial = at least one constructor; "
+             "distinct = hash of (type, site, mode, mappings)",
+        exhaustive={"quick": True, "thorough": True},
+        exhaustive_scope={"quick": "depth<=2 over 7 leaf classes (binary constructors capped at 12 sub-terms)", "thorough": "depth<=3 (binary constructors capped at 40 sub-terms)"},
+        partial=["C05_partial: full statement minus CommaSafe/precSafe; excluded classes are known findings K05a, K05bcd; return/event sites additionally K05g (add_types_prefix)",
+                 "parse_print (parseTsTy (printSpec t) = some t) is tested per case, not proved"],
+    ),
 }
